@@ -79,3 +79,7 @@ reg("C37", "exploration",
     "Generated link lines over 2-6 shared libraries (with/without sonames, repeated, -l vs path, weak-only and GC'd-only references) with random --as-needed/--no-as-needed/--push-state/--pop-state regions for executables and shared outputs; wild's ordered DT_NEEDED list must equal the statement's model, which is calibrated against GNU ld on every case.",
     "Cases where ld differs from the model are inconclusive; input libraries are built with GNU ld.",
     "runtime differential monitor (DT_NEEDED vs model calibrated on GNU ld)")
+reg("C11", "exploration",
+    "clang-assembled AArch64 objects with multi-MiB functions so the image spans 200-520 MiB, calls forward/backward/to both ends/to 64 KiB-aligned callees, conditional branches, and PLT calls in PIE links; every generated branch site (marker symbol, known target) is decoded in wild's output and followed through at most one thunk or PLT stub (ADRP+ADD+BR, ADRP+LDR+BR decoded); it must arrive at the target symbol's address or at a GOT slot bound to the target; a range failure that ld.lld does not have is a violation.",
+    "No AArch64 execution is possible in this sandbox: control flow is decoded statically; ld.lld 14 is the accept/reject reference.",
+    "runtime output monitor: static control-flow decoding of generated long-branch programs")
